@@ -1,78 +1,37 @@
 (** C13 — Clock control commands stay finite and within configured bounds.
-    Only statements closed by [exact]; proofs live in Filter/ClampBound.v,
-    Filter/FilterLemmas.v and Filter/Repaired.v.
+    Only statements closed by [exact]; proofs live in Filter/FilterLemmas.v,
+    Filter/ClampBound.v and Filter/AssertSites.v.  The model follows /repo AFTER the
+    fixes 4d80470 (F12), 3d2d7f9 (F13) and b057ba6 (F15).
 
-    Reading guide.  [kalman_trace exp_fn dbg cfg s es rs] is the list, per event,
-    of the commands the model of KalmanFilter issues from state [s] on events
-    [es] (measurements, update, demobilize) with clock replies [rs]; it is what
-    the correspondence run compares with the real filter ([C13_trace_is_observed]).
+    Reading guide.  [kalman_trace exp_fn dbg cfg s es rs] is the list, per event, of
+    the commands the model of KalmanFilter issues from state [s] on events [es]
+    (measurements, update, demobilize) with clock replies [rs]; it is what the
+    correspondence run compares with the real filter ([C13_trace_is_observed]).
     [exp_fn] is libm's exp (arbitrary), [dbg] the build mode.
-    [cmdP cfg (SetFreq f)] = f is NaN, or finite with |f| <= next_up(max_freq_offset). *)
+    [cmdP_exact cfg (SetFreq f)] = f is finite and |f| <= max_freq_offset. *)
 From Coq Require Import Floats.
 From SV Require Import Filter.FloatBits Filter.FloatOrder Filter.ClampBound Filter.FilterCases
-  Filter.FilterLemmas Filter.Repaired Filter.AssertSites.
+  Filter.FilterLemmas Filter.AssertSites.
 
-(** freq_cmd_bounded, the half that holds of today's code — every trajectory, every
-    length, every clock, every exp: a frequency command is NaN or within ONE ULP
-    above the bound. *)
-Theorem C13_freq_cmd_partial : forall exp_fn dbg cfg s es rs,
-  bound_ok (c_max_freq_offset cfg) -> kalman_new cfg = Ok s ->
-  Forall (Forall (cmdP cfg)) (kalman_trace exp_fn dbg cfg s es rs).
-Proof. exact freq_cmd_bounded_from_new. Qed.
+(** freq_cmd_bounded, EXACT: every trajectory, every length, every clock, every exp,
+    both build modes, from ANY estimator state (also NaN / infinite ones). *)
+Theorem C13_freq_cmd_bounded : forall exp_fn dbg cfg,
+  is_fin (c_max_freq_offset cfg) = true -> (fzero <=. c_max_freq_offset cfg) = true ->
+  forall s es rs, Forall (Forall (cmdP_exact cfg)) (kalman_trace exp_fn dbg cfg s es rs).
+Proof. exact freq_cmd_bounded. Qed.
 
 Theorem C13_trace_is_observed : forall exp_fn dbg cfg s es rs,
   map o_cmds (run_events exp_fn dbg (FKalman cfg) (SK s) es rs)
   = map (map ocmd_of) (kalman_trace exp_fn dbg cfg s es rs).
 Proof. exact run_events_trace. Qed.
 
-(** the rounding fact behind it (binary64, round to nearest even) *)
-Theorem C13_clamp_partial : forall cur err b,
-  bound_ok b -> is_fin cur = true -> (fabs cur <=. PrimFloat.next_up b) = true ->
-  let f := cur +. (if b <. cur +. err then b -. cur
-                   else if cur +. err <. -. b then -. b -. cur else err) in
-  (FloatBits.is_nan f = true /\ FloatBits.is_nan err = true) \/
-  (is_fin f = true /\ (fabs f <=. PrimFloat.next_up b) = true).
-Proof. exact clamp_cmd_partial. Qed.
-
-(** a NaN command needs a NaN frequency estimate *)
-Theorem C13_freq_cmd_nan_only_if : forall cfg s cur t,
-  bound_ok (c_max_freq_offset cfg) ->
-  is_fin cur = true -> (fabs cur <=. PrimFloat.next_up (c_max_freq_offset cfg)) = true ->
-  is_fin t = true ->
-  FloatBits.is_nan (freq_command cfg s cur t) = true ->
-  FloatBits.is_nan (base_freq_offset (k_run s)) = true.
-Proof. exact freq_cmd_nan_only_if. Qed.
-
-(** F12 (known finding 1): the exact bound |f| <= max_freq_offset is false. *)
-Theorem C13_clamp_overshoot_witness :
-  let f := f12_cur +. clamp_adjustment f12_cur (fb 4652007308841189376) f12_bound in
-  is_fin f = true /\ (fabs f <=. f12_bound) = false /\ bits_of_f f = bits_of_f (PrimFloat.next_up f12_bound).
-Proof. exact clamp_overshoot_witness. Qed.
-
-Theorem C13_freq_cmd_bounded_refuted :
-  valid_cfg (match case_kind f12_case with FKalman c => c | _ => kcfg_bits 0 0 0 0 0 0 0 0 0 0 0 0 0 0 0 end) = true /\
-  obs_list_eqb (run_case f12_case) (case_obs f12_case) = true /\
-  ok_C13 (case_kind f12_case) (case_events f12_case) (run_case f12_case) = false /\
-  kf_C13 f12_case = 1.
-Proof. exact freq_cmd_bounded_refuted. Qed.
-
-(** ... and exact for the repaired steer path (final clamp + finiteness guard),
-    from ANY estimator state *)
-Theorem C13_repaired_freq_cmd_bounded : forall exp_fn dbg cfg,
-  is_fin (c_max_freq_offset cfg) = true -> (fzero <=. c_max_freq_offset cfg) = true ->
-  forall s es rs, Forall (Forall (cmdP_exact cfg)) (kalman_trace_r exp_fn dbg cfg s es rs).
-Proof. exact repaired_freq_cmd_bounded. Qed.
-
-(** step_cmd / steer_decision *)
+(** step_cmd / steer_decision.  [freq_cmds cfg s t l] = l plus at most the one command
+    clamp(cur + clamp_adjustment(..), +-bound), issued only if finite. *)
 Theorem C13_step_cmd : forall dbg cfg s c,
   c_log (fst (kalman_steer dbg cfg s c)) =
   if fabs (base_offset (k_run s)) <. dur_seconds (c_step_threshold cfg) then
     match steer_target cfg s with
-    | Ok t =>
-        match k_cur s with
-        | Some cur => SetFreq (freq_command cfg s cur t) :: c_log c
-        | None => c_log c
-        end
+    | Ok t => freq_cmds cfg s t (c_log c)
     | Panic _ => c_log c
     end
   else
@@ -82,13 +41,18 @@ Theorem C13_step_cmd : forall dbg cfg s c,
     end.
 Proof. exact steer_decision. Qed.
 
+Theorem C13_freq_cmds_at_most_one : forall cfg s t l,
+  freq_cmds cfg s t l = l \/ exists f, freq_cmds cfg s t l = SetFreq f :: l.
+Proof. exact freq_cmds_at_most_one. Qed.
+
+(** step_cmd, magnitude clause: kernel evaluation on a boundary lattice (a test, see
+    Filter/FilterLemmas.v); in general it is checked by the oracle on implementation traces *)
+Theorem C13_step_magnitude_grid_partial : step_mag_grid = true.
+Proof. exact step_mag_grid_holds. Qed.
+
 (** demobilize_once *)
 Theorem C13_demobilize_once : forall dbg cfg s c,
-  c_log (fst (kalman_demobilize dbg cfg s c)) =
-  match k_cur s with
-  | Some cur => SetFreq (freq_command cfg s cur fzero) :: c_log c
-  | None => c_log c
-  end.
+  c_log (fst (kalman_demobilize dbg cfg s c)) = freq_cmds cfg s fzero (c_log c).
 Proof. exact demobilize_log. Qed.
 
 Theorem C13_fresh_filter_quiet : forall dbg cfg s c,
@@ -98,57 +62,65 @@ Theorem C13_fresh_filter_quiet : forall dbg cfg s c,
   c_log (fst (kalman_demobilize dbg cfg s c)) = c_log c.
 Proof. exact fresh_filter_quiet. Qed.
 
-(** F13 (known finding 2): the basic filter commands a NaN frequency. *)
-Theorem C13_basic_finite_refuted :
-  obs_list_eqb (run_case f13_case) (case_obs f13_case) = true /\
-  ok_C13 (case_kind f13_case) (case_events f13_case) (run_case f13_case) = false /\
-  kf_C13 f13_case = 2.
-Proof. exact basic_finite_refuted. Qed.
+(** basic_finite: every command of the basic filter is finite, from any state, along
+    every measurement sequence *)
+Theorem C13_basic_finite : forall dbg s ms rs,
+  Forall (Forall cmdP_fin) (basic_trace dbg s ms rs).
+Proof. exact basic_finite_trace. Qed.
 
-Theorem C13_repaired_basic_finite : forall dbg s m,
-  mspec cmdP_fin (basic_measurement_r dbg s m) (fun _ => True).
-Proof. exact repaired_basic_finite. Qed.
+(** F15: the debug assertion is gone; progressing to an earlier time is a no-op in both
+    build modes and the stream that used to panic the debug build runs identically in both *)
+Theorem C13_progress_earlier_is_noop : forall dbg cfg f time w,
+  (time < i_time f)%Z -> inner_progress dbg cfg f time w = Ok f.
+Proof. exact progress_earlier_is_noop. Qed.
 
-(** step_cmd, magnitude clause: kernel evaluation on a boundary lattice (a test, see
-    Filter/FilterLemmas.v); in general it is checked by the oracle on implementation traces *)
-Theorem C13_step_magnitude_grid_partial : step_mag_grid = true.
-Proof. exact step_mag_grid_holds. Qed.
+Theorem C13_F15_site_removed :
+  map o_res (run_filter exp_eval true (FKalman kalman_default_cfg) f15_events f15_replies)
+    = [Some (true, Some 0); Some (true, Some 0)]
+  /\ obs_list_eqb (run_filter exp_eval true (FKalman kalman_default_cfg) f15_events f15_replies)
+                  (run_filter exp_eval false (FKalman kalman_default_cfg) f15_events f15_replies) = true.
+Proof. exact f15_site_removed. Qed.
 
-(** debug_assert!(time >= self.filter_time), debug builds.  Invariant TInv: the wander
-    filter's time never exceeds the running filter's time (they are NOT always equal),
-    and it exists only if the running filter does.  If the clock's replies during a
-    measurement are not earlier than the event time, no path reaches the assertion --
-    neither through the running filter nor through the wander filter -- and TInv is kept.
-    ([aspec T m Q]: replies >= T  ==>  m does not panic at site_progress_assert, and Q.) *)
-Theorem C13_measurement_assert_unreachable : forall exp_fn cfg s m,
-  TInv s ->
-  aspec (m_time m) (kalman_measurement exp_fn true cfg s m) (fun r => TInv (fst r)).
-Proof. exact measurement_assert_unreachable. Qed.
+(** HISTORIC (statements about the pre-fix formulas, kept as the reason for the fixes):
+    F12: cur + clamp_adjustment(cur, err, bound) can be next_up(bound); the final clamp
+    of the repaired code maps it back to the bound.  The general fact: it never exceeds
+    next_up(bound) (binary64, round to nearest even). *)
+Theorem C13_prefix_clamp_overshoot_witness :
+  let f := f12_cur +. clamp_adjustment f12_cur (fb 4652007308841189376) f12_bound in
+  is_fin f = true /\ (fabs f <=. f12_bound) = false /\ bits_of_f f = bits_of_f (PrimFloat.next_up f12_bound)
+  /\ fclamp f (-. f12_bound) f12_bound = Some f12_bound.
+Proof. exact prefix_clamp_overshoot_witness. Qed.
 
-Theorem C13_update_assert_unreachable : forall (exp_fn : float -> float) cfg T s,
-  TInv s -> otime_le (k_run s) T ->
-  aspec T (kalman_update true cfg s) (fun r => TInv (fst r)).
-Proof. exact update_assert_unreachable. Qed.
+Theorem C13_prefix_clamp_partial : forall cur err b,
+  bound_ok b -> is_fin cur = true -> (fabs cur <=. PrimFloat.next_up b) = true ->
+  let f := cur +. (if b <. cur +. err then b -. cur
+                   else if cur +. err <. -. b then -. b -. cur else err) in
+  (FloatBits.is_nan f = true /\ FloatBits.is_nan err = true) \/
+  (is_fin f = true /\ (fabs f <=. PrimFloat.next_up b) = true).
+Proof. exact clamp_cmd_partial. Qed.
 
-Theorem C13_demobilize_assert_unreachable : forall (exp_fn : float -> float) cfg T s,
-  TInv s -> otime_le (k_run s) T ->
-  aspec T (kalman_demobilize true cfg s) (fun _ => True).
-Proof. exact demobilize_assert_unreachable. Qed.
+(** F13: the frequency-correction formula on two zero intervals is NaN (the repaired
+    measurement no longer evaluates it there), and the old witness stream is finite now *)
+Theorem C13_prefix_basic_zero_over_zero :
+  match basic_freq_corr (basic_new (fb 4602678819172646912)) 0 0 with
+  | Ok (fcorr, fc) => FloatBits.is_nan fcorr && FloatBits.is_nan fc
+  | Panic _ => false
+  end = true.
+Proof. exact prefix_basic_zero_over_zero. Qed.
 
-Theorem C13_new_filter_TInv : forall cfg s, kalman_new cfg = Ok s -> TInv s.
-Proof. exact kalman_new_TInv. Qed.
+Theorem C13_F13_stream_now_finite :
+  map o_cmds (run_filter exp_eval true (FBasic (fb 4602678819172646912)) f13_events
+                (repeat (Some (1000 * NS_PER_S * FRAC)%Z) 6))
+  = [[OF 0; OS 0; OF 0]; [OS 0; OF 0]].
+Proof. exact f13_stream_now_finite. Qed.
 
-(** F15: with a reply EARLIER than the event time the assertion is reached (debug build
-    panics on the second measurement, release build carries on) *)
-Theorem C13_F15_assert_reachable :
-  map o_res (run_filter exp_eval true (FKalman kalman_default_cfg) f15_events f15_replies) = [Some (true, Some 0); None]
-  /\ map o_res (run_filter exp_eval false (FKalman kalman_default_cfg) f15_events f15_replies) = [Some (true, Some 0); Some (true, Some 0)].
-Proof. exact f15_assert_reachable. Qed.
-
-(** Non-vacuity: the default bound satisfies the hypothesis, the default
-    configuration creates a filter, and the F12 stream makes it issue commands. *)
+(** Non-vacuity: the default configuration satisfies the hypotheses of
+    C13_freq_cmd_bounded, creates a filter, and a short stream makes it issue commands. *)
 Example C13_nonvacuous :
-  bound_ok f12_bound /\
-  is_ok (kalman_new (match case_kind f12_case with FKalman c => c | _ => kcfg_bits 0 0 0 0 0 0 0 0 0 0 0 0 0 0 0 end)) = true /\
-  (10 <=? Z.of_nat (length (concat (map o_cmds (run_case f12_case))))) = true.
+  is_fin (c_max_freq_offset kalman_default_cfg) = true /\
+  (fzero <=. c_max_freq_offset kalman_default_cfg) = true /\
+  valid_cfg kalman_default_cfg = true /\
+  is_ok (kalman_new kalman_default_cfg) = true /\
+  (3 <=? Z.of_nat (length (concat (map o_cmds
+      (run_filter exp_eval true (FKalman kalman_default_cfg) f15_events f15_replies)))))%Z = true.
 Proof. vm_compute. repeat split; reflexivity. Qed.
